@@ -765,3 +765,4 @@ MANIFEST["text"] += ' Also: integer data is converted to floating point before t
 MANIFEST["text"] += " R1 also: every limit-to-limit arithmetic step of BaseInterval (vmax − vmin in __call__ and inverse) runs on limits converted to float first (found D27). R3 is now semantic: the frozen ManualInterval receives (lower, upper) of get_limits(data), directly or through self.vmin/self.vmax, in this order."
 MANIFEST["text"] += ' R3 also: every normal path of _set_limits installs the frozen ManualInterval (CFG must-pass-through; a path kept under a bare type test is a violation, under a test on the limits not decided).'
 MANIFEST["text"] += " R2 treats the interval's final clip and the stretch's initial clip as coupled defences."
+MANIFEST["text"] += ' R4c (coupled): a value derived in __post_init__ of a non-frozen dataclass is never stale (no code assigns its source fields on an existing instance).'
